@@ -45,7 +45,7 @@ CHECKS['C12'] = dict(
     design='§3 C12', note=TB + '; the guard baseline imbv/data/guards_baseline.json holds semantic tuples (no source text or positions) taken from the reference tree after the fix: commits')
 
 CHECKS['C20'] = dict(
-    technique='static analysis: CFG must-reach / dropped-result / dominance rules over self_test.c and the init functions',
+    technique='static analysis: CFG must-reach / dropped-result / dominance rules over self_test.c and the init functions; paths from the recorded self-test error to the returns (no error-code reset in between)',
     text='Decides on the CFG of self_test.c and the public init functions: self_test() runs on the success path of every public init, only '
          'on an initialised non-NULL manager, and its failure sets IMB_ERR_SELFTEST; the PASS bit is cleared first and set only when every '
          'group passed; no KAT / process_job result is dropped; after every processed job the vector\'s expected tag/text is compared and a '
@@ -66,7 +66,7 @@ CHECKS['C18'] = dict(
     design='§3 C18', note=TB_ASM)
 
 CHECKS['C05'] = dict(
-    technique='static analysis: path-sensitive typestate over the clang CFG of the ring functions (load earliest / status test / advance / return), ownership and dominance rules, sibling skeleton comparison',
+    technique='static analysis: path-sensitive typestate over the clang CFG of the ring functions (load earliest / status test / advance / return), ownership and dominance rules, sibling skeleton comparison; CFG reachability with the normalisation blocks removed plus reaching definitions (ring normalisation); dominating status tests on custom-stage flush handlers',
     text='Decides structural necessary conditions of the in-order queue on every path of the queue functions of all nine variant TUs: who '
          'may write the ring offsets and how; the earliest job is handed back only after a COMPLETED test or forced completion and with '
          'exactly one advance (no lost, duplicated or partial job on any path of submit / flush / get-completed / burst submit / burst '
@@ -76,7 +76,7 @@ CHECKS['C05'] = dict(
     design='§3 C05', note=TB)
 
 CHECKS['C06'] = dict(
-    technique='static analysis: exhaustive evaluation of the dispatch tables by constant propagation through the dispatch functions; name-token agreement; guard-catalogue extraction of the accepted set',
+    technique='static analysis: exhaustive evaluation of the dispatch tables by constant propagation through the dispatch functions; name-token agreement; guard-catalogue extraction of the accepted set; dominating status tests on custom-stage flush handlers',
     text='Decides the finite suite matrix cell by cell, for all nine variant TUs: table geometry and the index arithmetic shared by '
          'set_cipher_suite_id, the job API and the burst CALL_* readers; for each of the 2x256 cipher and 2x50 hash table cells that '
          'validation accepts, the kernels reached under constant propagation of (mode, key size) carry the family of the named mode, the '
@@ -121,18 +121,18 @@ _NOTVAL = ('The property proper (output equals the published algorithm for all i
 _DEV = ' Added object-level consistency rules over the assembled kernels of this family (none decides the algorithm, each is a necessary condition that one dropped or altered line violates): key-size siblings differ only in round-dependent instructions; the constants of one increment table are added with one element width within a function; unsigned tests of a byte counter against one near-overflow constant agree on strictness within a function; no routine computes more never-read values or reads more never-defined registers than on the reference tree (per-routine counts of the reference tree); the copies of one named constant table kept in three or more assembly units agree up to replication to the vector width, alignment padding and extension (a copy standing alone is a deviant).'
 
 CHECKS['C01'] = dict(
-    technique='static analysis: binding/dispatch agreement (name tokens of resolved callees under constant propagation of mode and key size); clone / contradiction / definition-use deviance rules over the assembled kernels (exact CFG, liveness and must-defined dataflow)',
+    technique='static analysis: binding/dispatch agreement (name tokens of resolved callees under constant propagation of mode and key size); clone / contradiction / definition-use deviance rules over the assembled kernels (exact CFG, liveness and must-defined dataflow); byte-order typestate of vector registers over the exact CFG of the kernels; reaching-stores dataflow (split stores); element-insert ladder contradiction rule',
     text=_NOTVAL + ' Decided: in each of the nine variant TUs (six never executed by the tests on this host) every accepted cipher table cell '
          'dispatches to kernels carrying the named mode, key size and direction, jobs are flushed from the manager they were parked in, and '
          'every cipher macro->kernel binding agrees in key size/direction.' + _DEV + ' A wrong constant applied consistently, or a reordered data flow inside one kernel, stays invisible.',
     design='§3 C01-C03', note=TB)
 CHECKS['C02'] = dict(
-    technique='static analysis: binding/dispatch agreement for hash/MAC/CRC kernels; clone and definition-use deviance rules over the assembled kernels; symbolic-interval dataflow and shape rules over the C padding routines',
+    technique='static analysis: binding/dispatch agreement for hash/MAC/CRC kernels; clone and definition-use deviance rules over the assembled kernels; symbolic-interval dataflow and shape rules over the C padding routines; byte-order typestate and reaching-stores dataflow over the assembled kernels; layout rule for padding written in assembly (marker offset vs length field, object code)',
     text=_NOTVAL + ' Decided: every hash table cell of every variant dispatches algorithm i to kernels of that algorithm and digest size (HMAC '
          'and plain kept apart), with submit/flush on the same out-of-order manager, and hash bindings agree in digest/key size/operation.' + _DEV + ' The SHA padding built in C (one-shot functions and C multi-buffer SHA managers) puts 0x80 directly behind the copied tail, re-establishes a re-used scratch block from zero (symbolic intervals), stores the length once as bytes*8 at <block multiple>-8, and all sites agree on the extra-block test `tail >= blk_size - pad_size`.' + ' Multi-lane ZUC-EIA3 C routines that keep an all-lanes-end-together flag read it wherever they choose, once for all lanes, between a short and a full keystream round.',
     design='§3 C01-C03', note=TB)
 CHECKS['C03'] = dict(
-    technique='static analysis: binding/dispatch agreement for AEAD and combined modes; clone / contradiction / definition-use deviance rules over the assembled kernels',
+    technique='static analysis: binding/dispatch agreement for AEAD and combined modes; clone / contradiction / definition-use deviance rules over the assembled kernels; byte-order typestate and reaching-stores dataflow over the assembled kernels; element-insert ladder contradiction rule',
     text=_NOTVAL + ' Decided: for GCM, GCM-SGL, CCM, ChaCha20-Poly1305(-SGL), SNOW-V-AEAD, SM4-GCM, DOCSIS-BPI and PON both table halves of every '
          'variant dispatch the accepted (mode, key) to kernels of that mode, key size and direction; paired hash algorithms reach their own kernels.' + _DEV + ' C AEAD code (ChaCha20-Poly1305 one-shot/SGL/direct, SM4-GCM, SNOW-V-AEAD) feeds the authenticator and its scratch block from the output buffer after the cipher call on encrypt and from the input buffer before it on decrypt (the tag is defined over the ciphertext).',
     design='§3 C01-C03', note=TB)
@@ -145,7 +145,7 @@ CHECKS['C09'] = dict(
          'different symbols behind the direct API (value-level).',
     design='§3 C09', note=TB)
 CHECKS['C11'] = dict(
-    technique='static analysis: constant propagation of the algorithm selector through imb_hmac_ipad_opad; binding agreement of helper slots',
+    technique='static analysis: constant propagation of the algorithm selector through imb_hmac_ipad_opad; binding agreement of helper slots; byte-interval coverage of the IV generators; symbolic first-result expressions of the key pre-computation routines compared between architecture siblings',
     text='NOT decided: the key material values. Decided (selection clauses): for every accepted HMAC algorithm the over-long test, substitute '
          'length, key hash, one-block function and 0x36/0x5c pads belong to the same algorithm, HMAC-MD5 keys over one block are refused '
          'before any hashing, and the key-helper slots of all nine variants are bound to kernels of the same algorithm and key size; the SHA one-shot '
@@ -163,7 +163,7 @@ CHECKS['C04'] = dict(
          'same lane-minimum search on every path (provenance domain); manager routines hold no more never-read values / never-defined reads than on the reference tree; the copies of one named constant table (lane masks, byte swaps) in three or more manager units agree; multi-lane ZUC-EIA3 C routines give a shortened last keystream round only when their all-lanes-end-together flag is set (a longer lane must not be affected by a shorter co-scheduled one).',
     design='§3 C04', note=TB_ASM)
 CHECKS['C13'] = dict(
-    technique='static analysis: CFG must-scrub typestate on C locals, arch-sibling agreement, zero/non-zero abstract interpretation of vector registers at every exit of every assembled function, typed zero-store coverage of manager fields against a reference baseline',
+    technique='static analysis: CFG must-scrub typestate on C locals, arch-sibling agreement, zero/non-zero abstract interpretation of vector registers at every exit of every assembled function, typed zero-store coverage of manager fields against a reference baseline; symbolic lane-mask provenance (opmask / general registers carry the constructions they were OR-ed from) for wipe-covers-copy in the lane-mask ladders; repeated-store rule with an assembled fixture',
     text='Partial; each clause is a necessary condition. C side: locals the code scrubs are scrubbed on every path from their uses to every return '
          '(found K11), arch siblings scrub the same locals (found K9), register-scrub macros cover all returns after kernel calls. Object level: all '
          '247 exported asm functions return with every vector register zero on every path except 33 individually reasoned exceptions (found K5); 281 '
@@ -184,7 +184,7 @@ CHECKS['C19'] = dict(
 CHECKS['C07'] = dict(
     technique='static analysis: abstract evaluation of the validation guards over a finite tag-length domain; abstract interpretation of the assembled '
               'manager routines with a memory-cell constraint domain (comparisons and bit tests of job->auth_tag_output_len_in_bytes) bounding every '
-              'constant-extent store through job->auth_tag_output; AST call-site rule pairing the tag pointer with its length',
+              'constant-extent store through job->auth_tag_output; AST call-site rule pairing the tag pointer with its length; object-code interval rule (a length bounded by a compare never has a larger constant subtracted); tail-copy threshold rule',
     text='PARTIAL - the property proper is NOT decided: reads and writes of message, key, IV and AAD ranges, placement against unmapped pages, '
          'source-intact and in-place == out-of-place all quantify over addresses computed from run-time lengths inside hand-written SIMD loops, for '
          'which no sound static argument is in reach here. Decided is the one clause visible in code shape, "the tag buffer of exactly the requested '
